@@ -203,7 +203,7 @@ Definition aux_graph (factor : Z) (spacing : Q) (g : graph) : graph :=
 
 Definition exec_ns_positioner (thoroughness factor : Z) (spacing : Q) (g : graph) : res graph :=
   let a := aux_graph factor spacing g in
-  do a <- phase2 NetworkSimplex (mkNsParams thoroughness (Z.of_nat (length (g_N g))) 2) a;
+  do a <- assign_layers NetworkSimplex (mkNsParams thoroughness (Z.of_nat (length (g_N g))) 2) a;
   let idx n := match index_of n (g_N g) with Some i => i | None => 0%nat end in
   let g := with_L g (map (fun l => set_layer_h (layer_height g (l_nodes l) (l_h l)) l) (g_L g)) in
   let xs := flat_map l_nodes (g_L g) in
